@@ -312,13 +312,16 @@ def run(chk):
         "unconnected-input-pin": (["dff u0 (.clk(), .d(a), .q(o), .qn(v));"], {"clk": None, "d": "a", "q": "o", "qn": "v"}),
         "one-net-on-two-input-pins": (["dff u0 (.clk(a), .d(a), .q(o), .qn(v));"], {"clk": "a", "d": "a", "q": "o", "qn": "v"}),
         "feedback-net-on-input-and-output-pin": (["dff u0 (.clk(ck), .d(w), .q(w), .qn(v));", "assign o = w;"], {"clk": "ck", "d": "w", "q": "w", "qn": "v"}),
+        # a net named like an *output pin* of the cell (q), driven by a gate and attached to an input pin: only nets attached to
+        # output pins are the instance's to drive
+        "net-named-like-an-output-pin-on-an-input-pin": (["and g0 (q, a, ck);", "dff u0 (.clk(ck), .d(q), .q(w), .qn(v));", "assign o = w & q;"], {"clk": "ck", "d": "q", "q": "w", "qn": "v"}),
         # pins omitted from the connection list - some of them, all of them (an empty list)
         "omitted-pins": (["dff u0 (.d(a), .q(o));"], {"clk": None, "d": "a", "q": "o", "qn": None}),
         "every-pin-omitted": (["dff u0 ();", "assign o = a;"], {"clk": None, "d": None, "q": None, "qn": None}),
         "every-pin-omitted, second instance connected": (["dff u0 (), u1 (.clk(ck), .d(a), .q(o));"], {"clk": None, "d": None, "q": None, "qn": None}),
     }
     for name, (body, conns) in cases.items():
-        text = module_text(["ck", "a"], ["o"], ["w", "v", "t"], body)
+        text = module_text(["ck", "a"], ["o"], ["w", "v", "t", "q"], body)
         n_parse += 1
         try:
             c = full_parse(P, text, [ff])
@@ -343,6 +346,8 @@ def run(chk):
                             break
             if prob is None and (c.inputs() != {"ck", "a"} or c.outputs() != {"o"}):
                 prob = {"problem": "inputs/outputs differ from the declared ports", "inputs": sorted(c.inputs()), "outputs": sorted(c.outputs())}
+            if prob is None and "q" in c and name.startswith("net-named-like-an-output-pin") and (c.type("q") != "and" or c.fanin("q") != {"a", "ck"}):
+                prob = {"problem": "a net driven by a gate was re-typed because it is named like an output pin", "type": c.type("q"), "fanin": sorted(c.fanin("q"))}
         except ParseError as ex:
             prob = {"error": str(ex)[:200]}
         chk.ob("C02.B.blackbox-instance", f"blackbox::{name}", prob is None, file=FILE, func="_VerilogCircuitGraphTransformer.module_instantiation", fact=prob or {}, expect="instance recorded; every pin attached to the named net")
@@ -443,6 +448,31 @@ def run(chk):
         except ValueError as ex:
             prob = {"problem": "the circuit is not well formed (a single-input gate with several drivers, ...)", "error": str(ex)[:120]}
         chk.ob("C02.O.item-order", f"order::{oname}", prob is None, file=FILE, func="_VerilogCircuitGraphTransformer", fact=prob or {"items": len(items)}, expect="the same circuit for every ordering of declarations, instances and assigns")
+
+    # the same orderings (and a few expression netlists with uses before definitions) with the repository's own Circuit class under
+    # the transformer: `relabel`, `add(allow_redefinition=True)`, `connect` ... are circuit.py's code then
+    from ..pkgenv import to_ref as _to_ref
+
+    PFS = Package(repo, full_stack=True)
+    fs_texts = {f"order::{oname}": (order_text(items), [ffo]) for oname, items in orders.items()}
+    fs_texts["assign to a net used earlier"] = (module_text(["a", "b", "c"], ["o", "p"], ["w"], ["and g0 (o, w, c);", "or g1 (p, w, a);", "assign w = a ^ b;"]), [])
+    fs_texts["assign of an operator expression to a net used twice earlier"] = (module_text(["a", "b", "c"], ["o", "p"], ["w", "v"], ["assign v = w & c;", "assign o = v | w;", "assign p = ~w;", "assign w = (a & b) | c;"]), [])
+    for tname, (text_, bbs_) in fs_texts.items():
+        n_parse += 1
+        try:
+            want_c = full_parse(P, text_, bbs_)
+            bbs_full = [PFS.cg.BlackBox(b.name, sorted(b.inputs()), sorted(b.outputs())) for b in bbs_]
+            got_c = _to_ref(full_parse(PFS, text_, bbs_full))
+            prob = None
+            if got_c._snapshot()[1:3] != want_c._snapshot()[1:3] or sorted(got_c.blackboxes) != sorted(want_c.blackboxes):
+                ga, wa = got_c._snapshot(), want_c._snapshot()
+                prob = {"problem": "the circuit differs from the one the documented Circuit semantics give", "nodes_differ": sorted(set(dict(ga[1])) ^ set(dict(wa[1])))[:6],
+                        "edges_only_here": sorted(set(ga[2]) - set(wa[2]))[:6], "edges_missing": sorted(set(wa[2]) - set(ga[2]))[:6]}
+        except ParseError as ex:
+            prob = {"error": str(ex)[:200]}
+        except ModelRaise as ex:
+            prob = {"error": str(ex)[:200]}
+        chk.ob("C02.O.item-order", f"{tname}@full-stack", prob is None, file=FILE, func="_VerilogCircuitGraphTransformer", fact=prob or {}, expect="the same circuit with circuit.py's own class under the transformer")
 
     # ---- W: the diagnostics flags only report ---------------------------------
     # `warnings=True` prints about unused nets, `error_on_warning=True` turns such a report into VerilogParsingWarning: neither
